@@ -56,6 +56,12 @@ def _cases(draw):
         form["nodes"].append({"k": "q", "c": {"type": "audit", "parameters": g.pick([
             "track-changes=true", "identify-user=true track-changes-reasons=on-form-edit",
             "location-priority=balanced location-min-interval=60 location-max-age=300", "track-changes=false identify-user=false"])}})
+    if g.p("_", 0.12):
+        # the workbook as a spreadsheet file with spacer columns and typed number cells: what reaches the bind is the cell's text
+        form["carrier"] = {"fmt": g.pick(["xlsx", "xlsx", "xls"]), "seed": g.integer(0, 9999)}
+        for n, _ in model.walk(form["nodes"]):
+            if n["k"] == "q" and n["c"].get("type") in ("calculate",) and g.p("_", 0.5):
+                n["c"]["calculation"] = g.pick(["0.00005", "0.000025", "12", "2.5", "10000000000000000", "-0.00007", "0.1"])
     return {"form": form}
 
 
